@@ -2294,4 +2294,88 @@ theorem C06_marked_walks_closed (w : String) (mf : Bool) (hm : (w, mf) ∈ marke
   subst hmf
   exact ⟨m, hv, visit_closed u h hc (u.length + 1) marked e m he hv⟩
 
+/-! ## walks that remember what they expanded: nothing reachable is left out -/
+
+theorem walkStepsList_closed (h : Hier) (fuel : Nat)
+    (IH : ∀ seen e s k, walkSteps true h fuel seen e = some (s, k) →
+      (∀ x, x ∈ seen → x ∈ s) ∧ e ∈ s ∧ WalkClosed h seen s) :
+    ∀ (cs seen s : List Nat) (k : Nat), walkStepsList true h fuel seen cs = some (s, k) →
+      (∀ c, c ∈ cs → c ∈ s) ∧ (∀ x, x ∈ seen → x ∈ s) ∧ WalkClosed h seen s := by
+  intro cs
+  induction cs with
+  | nil =>
+    intro seen s k hv
+    simp [walkStepsList] at hv
+    obtain ⟨rfl, _⟩ := hv
+    exact ⟨by simp, fun x hx => hx, fun x hx hn => absurd hx hn⟩
+  | cons c rest ih =>
+    intro seen s k hv
+    simp only [walkStepsList] at hv
+    cases h1 : walkSteps true h fuel seen c with
+    | none => simp [h1] at hv
+    | some r1 =>
+      obtain ⟨s1, k1⟩ := r1
+      simp only [h1] at hv
+      cases h2 : walkStepsList true h fuel s1 rest with
+      | none => simp [h2] at hv
+      | some r2 =>
+        obtain ⟨s2, k2⟩ := r2
+        simp [h2] at hv
+        obtain ⟨rfl, _⟩ := hv
+        obtain ⟨sub1, cm, c1⟩ := IH seen c s1 k1 h1
+        obtain ⟨a, b, c2⟩ := ih s1 s2 k2 h2
+        refine ⟨fun t ht => ?_, fun x hx => b x (sub1 x hx), fun x hx hn y hy => ?_⟩
+        · rcases List.mem_cons.mp ht with rfl | ht'
+          · exact b _ cm
+          · exact a t ht'
+        · by_cases hx1 : x ∈ s1
+          · exact b y (c1 x hx1 hn y hy)
+          · exact c2 x hx hx1 y hy
+
+theorem walkSteps_closed (h : Hier) :
+    ∀ (fuel : Nat) (seen : List Nat) (e : Nat) (s : List Nat) (k : Nat), walkSteps true h fuel seen e = some (s, k) →
+      (∀ x, x ∈ seen → x ∈ s) ∧ e ∈ s ∧ WalkClosed h seen s := by
+  intro fuel
+  induction fuel with
+  | zero => intro seen e s k hv; simp [walkSteps] at hv
+  | succ fuel IH =>
+    intro seen e s k hv
+    by_cases hs : e ∈ seen
+    · simp [walkSteps, hs] at hv
+      obtain ⟨rfl, _⟩ := hv
+      exact ⟨fun x hx => hx, hs, fun x hx hn => absurd hx hn⟩
+    · simp only [walkSteps, hs, Bool.true_and, decide_false, Bool.false_eq_true, if_false, if_true] at hv
+      cases h1 : walkStepsList true h fuel (e :: seen) (h e) with
+      | none => simp [h1] at hv
+      | some r1 =>
+        obtain ⟨s1, k1⟩ := r1
+        simp [h1] at hv
+        obtain ⟨rfl, _⟩ := hv
+        obtain ⟨a, b, c⟩ := walkStepsList_closed h fuel IH (h e) (e :: seen) s1 k1 h1
+        refine ⟨fun x hx => b x (List.mem_cons_of_mem _ hx), b e List.mem_cons_self, fun x hx hn y hy => ?_⟩
+        by_cases hxe : x = e
+        · subst hxe; exact a y hy
+        · exact c x hx (by
+            intro hc'
+            rcases List.mem_cons.mp hc' with h2 | h2
+            · exact hxe h2
+            · exact hn h2) y hy
+
+/-- **C06, a walk that remembers what it expanded leaves nothing out**: for `ENTITYget_all_attributes`, exp2python's ancestor
+test and exp2cxx's select path count (the regenerated `dagWalks`), started with an empty memory, every node reachable from
+the start has been expanded when the walk returns — in at most one call per edge (`C06_dag_walks_linear`).  Together: every
+ancestor contributes its attributes, and contributes them once. -/
+theorem C06_dag_walks_complete (w : String) (memo : Bool) (hm : (w, memo) ∈ dagWalks)
+    (u : List Nat) (h : Hier) (hc : Closed u h) (e : Nat) (he : e ∈ u) :
+    ∃ s k, walkSteps memo h (u.length + 1) [] e = some (s, k) ∧ k ≤ (u.map (fun x => (h x).length)).sum + 1 ∧
+      ∀ y, Reach h e y → y ∈ s := by
+  obtain ⟨s, k, hw, hk⟩ := C06_dag_walks_linear w memo hm u h hc [] e he
+  have hmemo : memo = true := List.all_eq_true.mp (by decide : dagWalks.all (fun p => p.2) = true) (w, memo) hm
+  subst hmemo
+  obtain ⟨_, hes, hcl⟩ := walkSteps_closed h (u.length + 1) [] e s k hw
+  refine ⟨s, k, hw, hk, fun y hr => ?_⟩
+  induction hr with
+  | refl => exact hes
+  | step _ hcb ih => exact hcl _ ih (by simp) _ hcb
+
 end StepModel.C06
